@@ -28,8 +28,9 @@ func init() {
 			"no variable written by a goroutine is accessed by another concurrent goroutine, or by the spawning function on a path from the go statement that does not cross the wg.Wait joined by the goroutine's deferred Done; wg.Add precedes the go statements and its constant equals the number of goroutines that call Done. " +
 			"(formula) the code after wg.Wait is executed symbolically for every combination of values of the three decision variables (every k8s Decision constant plus one other value): it returns nil exactly when getTier==Allow and (policy==Allow or wildcard==Allow); every other `return nil` of the function is guarded by `Authorizer == nil`. " +
 			"(source) each decision variable is stored exactly once, unconditionally, from result #0 of an Authorizer.Authorize call. " +
+			"(tiername) in the four tiered-policy storages under apiserver/pkg/registry/projectcalico (networkpolicy, globalpolicy, stagednetworkpolicy, stagedglobalnetworkpolicy; discovered as the registry packages that call AuthorizeTierOperation) every tier name handed to AuthorizeTierOperation by REST.Create/Update/Get/Delete (24 call sites) derives from names.TierOrDefault (or a constant), never from the raw Spec.Tier; no condition that decides whether AuthorizeTierOperation is called tests the raw Spec.Tier against a defaulted name or a constant (raw==raw is allowed: equivalent to defaulted==defaulted); the sibling storages authorise in the same methods the same number of times. " +
 			"(attrs) the AttributesRecord passed to each of the three calls has User/Verb/Namespace/APIGroup/Resource/Subresource/Name/ResourceRequest equal to: get+tiers+<tierName parameter> for the conjunct; the request's verb on \"tier.\"+request resource with the request's name, resp. <tierName>+\".*\", for the two disjuncts.",
-		NotDecided: "What the underlying authorizer answers; races on data reachable through pointers (ctx, the authorizer, the request attributes object are only read here); the Path/APIVersion fields; that the error paths log; behaviour when GetAuthorizerAttributes fails.",
+		NotDecided: "What the underlying authorizer answers; tiername: that Update authorises BOTH the stored object's and the updated object's tier (which object each call's tier is taken from is not tracked — only that the name is defaulted, that the guards are over defaulted names, and the per-method call counts agree across the four storages); the list path (util.EnsureTierSelector); races on data reachable through pointers (ctx, the authorizer, the request attributes object are only read here); the Path/APIVersion fields; that the error paths log; behaviour when GetAuthorizerAttributes fails.",
 		Assumptions: []string{
 			"go/types + go/ssa (x/tools v0.50.0) model of the current source, CGO_ENABLED=0 build",
 			"Go memory model: `go` statement and WaitGroup Done->Wait are the only happens-before edges used",
@@ -72,6 +73,22 @@ func init() {
 				Expect: "C34.indep/wildcard"},
 			{Name: "authorizer error turned into an allow decision", File: c34File,
 				Old: "\t\t\tlogrus.Errorf(\"Error authorizing tier wildcard request: %v\", err)\n", New: "\t\t\tdecisionTierWildcard = k8sauth.DecisionAllow\n", Expect: "C34.source/wildcard"},
+			{Name: "global policy Update: new tier no longer defaulted and only authorised when non-empty (clearing spec.tier moves the policy into tier default unchecked)", File: c34RegDir + "/globalpolicy/storage.go",
+				Old:    "\t\tnewTier := names.TierOrDefault(newObj.(*calico.GlobalNetworkPolicy).Spec.Tier)\n\t\tif newTier != oldTier {\n",
+				New:    "\t\tnewTier := newObj.(*calico.GlobalNetworkPolicy).Spec.Tier\n\t\tif newTier != \"\" && newTier != oldTier {\n",
+				Expect: "C34.tiername/globalpolicy/REST.Update"},
+			{Name: "network policy Delete authorises the raw (possibly empty) tier name instead of the defaulted one", File: c34RegDir + "/networkpolicy/storage.go",
+				Old:    "\ttierName := names.TierOrDefault(obj.(*calico.NetworkPolicy).Spec.Tier)\n\terr = r.authorizer.AuthorizeTierOperation(ctx, name, tierName)\n\tif err != nil {\n\t\treturn nil, false, err\n",
+				New:    "\ttierName := obj.(*calico.NetworkPolicy).Spec.Tier\n\terr = r.authorizer.AuthorizeTierOperation(ctx, name, tierName)\n\tif err != nil {\n\t\treturn nil, false, err\n",
+				Expect: "C34.tiername/networkpolicy/REST.Delete"},
+			{Name: "staged network policy Update skips the new-tier check when the old tier is the default one (policy can be moved out of default into any tier)", File: c34RegDir + "/stagednetworkpolicy/storage.go",
+				Old:    "\t\tif newTier != oldTier {\n",
+				New:    "\t\tif oldObj.(*calico.StagedNetworkPolicy).Spec.Tier != \"\" && newTier != oldTier {\n",
+				Expect: "C34.tiername/stagednetworkpolicy/REST.Update"},
+			{Name: "staged global policy Create is no longer tier-authorised", File: c34RegDir + "/stagedglobalnetworkpolicy/storage.go",
+				Old:    "\terr := r.authorizer.AuthorizeTierOperation(ctx, policy.Name, tierName)\n\tif err != nil {\n\t\treturn nil, err\n\t}\n",
+				New:    "\t_ = tierName\n",
+				Expect: "C34.tiername/stagedglobalnetworkpolicy/REST.Create"},
 		},
 	})
 }
@@ -253,6 +270,7 @@ func runC34(c *Ctx) {
 		c23Guarded(&lost, func() { c34Source(c, p, fn, res, "C34.source/"+role, s, fam) })
 	}
 	c23Guarded(&lost, func() { c34Indep(c, p, fn, res, sym, sites, best, table, tableErr, fam) })
+	c23Guarded(&lost, func() { c34TierName(c) })
 	if len(lost) > 0 {
 		c.Lost("%s", strings.Join(lost, " | "))
 	}
